@@ -5,8 +5,9 @@ import FatVerif.Model.DirSlots
 `Names.generateLoop` feeds the generator an explicit population.  The library feeds it from a directory scan:
 `check_for_existence(name, is_dir)` runs `find_entry(name, is_dir, Some(&mut gen))` — which walks `self.iter()`,
 returns at the FIRST entry whose long name or alias matches the query (with the kind check), and calls
-`gen.add_existing(raw_short_name)` only for the entries scanned BEFORE a match — then, on `NotFound`, tries `generate`,
-else `next_iteration` and scans again (`exact_match` is never reset between rounds).
+`gen.add_existing(raw_short_name)` only for the entries scanned BEFORE a match — then, on `NotFound`, tries `generate`; since the repair of F23 (commit 4df4d32) the candidate is used only if
+`find_entry(display form of the candidate, None, None)` is `NotFound`, otherwise it is fed to `add_existing` and the
+loop continues; when `generate` fails, `next_iteration` and scan again (`exact_match` is never reset between rounds).
 
 This file mirrors that on the LISTING (`DirSlots.listing slots = readDirEntries true true slots`) of a slot list; the
 effectful, call-exact transliteration is `DirOps.findEntryLoop` / `findEntryG` / `checkForExistenceLoop` /
@@ -39,7 +40,19 @@ def scan (upper : Char → List Char) (name : List Char) (isDir : Option Bool) :
       if isDir.isSome && some (Lfn.isDir e.sfn) != isDir then (.error .invalidInput, g) else (.ok e, g)
     else scan upper name isDir es (Names.addExisting g (sfnName e.sfn))
 
-/-- the `loop { … }` of `check_for_existence`; `.error .hang` = `fuel` rounds were not enough -/
+/-- `find_entry(candidate_str, None, None)`: no kind filter, no generator -/
+def lookupNoGen (upper : Char → List Char) (entries : List LfnEntry) (q : List Char) : Option LfnEntry :=
+  entries.find? fun e => matchesName upper e q
+
+/-- the display bytes of a candidate are valid UTF-8 (`str::from_utf8(candidate.as_bytes())` succeeds): always the
+    case for a generated alias, whose bytes are ASCII (`Names.generate` never returns anything else:
+    `DirAlias.displayAscii_of_legal`); mirrors the guard of `DirOps.checkForExistenceLoop` -/
+def displayAscii (a : List Nat) : Bool := (Names.shortDisplay a).all (· < 128)
+
+/-- the `loop { … }` of `check_for_existence` (after the repair of F23); `.error .hang` = `fuel` rounds were not enough.
+    Every round: scan for the name (feeding the generator); on `NotFound` try `generate`; a candidate whose display
+    form is answered by a listed entry (long name or alias, ignoring case) is fed back to `add_existing` and the loop
+    `continue`s (rescan, next candidate); when `generate` fails, `next_iteration`. -/
 def loop (upper : Char → List Char) (entries : List LfnEntry) (name : List Char) (isDir : Option Bool) :
     Nat → Names.Gen → Except Err EntryOrAlias
   | 0, _ => .error .hang
@@ -48,7 +61,12 @@ def loop (upper : Char → List Char) (entries : List LfnEntry) (name : List Cha
     | (.ok e, _) => .ok (.entry e)
     | (.error .notFound, g') =>
       match Names.generate g' with
-      | .ok a => .ok (.alias a)
+      | .ok a =>
+        if displayAscii a then
+          match lookupNoGen upper entries (Names.aliasDisplay a) with
+          | none => .ok (.alias a)
+          | some _ => loop upper entries name isDir fuel (Names.addExisting g' a)
+        else .ok (.alias a)
       | .error _ => loop upper entries name isDir fuel (Names.nextIteration g')
     | (.error e, _) => .error e
 
